@@ -13,7 +13,7 @@ from ..ref import sqf_interp as I
 PROPERTY = "C12"
 LEVEL = "model_checking"
 VARIANTS = ["fast"]
-RULE = ("fairness: all sets of 2-3 scripts over 5 script shapes x slice lengths {1,2,3,5,7,150} x 2 clock ticks; states = scheduler turns "
+RULE = ("fairness: all sets of 2-3 (quick) / 2-4 (thorough) scripts over 7 script shapes x slice lengths {1,2,3,5,7,150} x 2 clock ticks; states = scheduler turns "
         "observed (slice_begin events), transitions = instructions; sleep: durations x competitors x slices; scriptDone/terminate: child "
         "lengths x delay before terminate x slices; a case = (script set, slice, tick); non-trivial = >=2 scripts alive at the same time")
 ASSUMPTIONS = [
@@ -34,6 +34,10 @@ SHAPES = {
     "long": lambda t: "private _s = 0; " + marks(t, 12),
     "sleeper": lambda t: "private _s = 0; " + marks(t, 2) + "; sleep 0.002; " + marks(t, 2, 2),
     "spawner": lambda t: "private _s = 0; " + marks(t, 1) + '; [] spawn { private _s = 100; ' + marks(t + "c", 3) + " }; " + marks(t, 3, 1),
+    # gives its turn back after every statement (runnable again at once)
+    "yielder": lambda t: "private _s = 0; " + "; sleep 0; ".join(marks(t, 1, k) for k in range(3)),
+    # nothing to run: finished before its first turn is over
+    "empty": lambda t: "",
 }
 
 
@@ -54,6 +58,10 @@ def expected_marks(shape, tag):
         a, s = seq(tag, 2, 0, 0)
         b, _ = seq(tag, 2, 2, s)
         return {tag: a + b}
+    if shape == "yielder":
+        return {tag: seq(tag, 3, 0, 0)[0]}
+    if shape == "empty":
+        return {}
     if shape == "spawner":
         a, s = seq(tag, 1, 0, 0)
         b, _ = seq(tag, 3, 1, s)
@@ -224,6 +232,6 @@ def check_term(ws, case):
 def spaces(tier):
     q = tier == "quick"
     sl = [1, 2, 3, 7, 150] if q else SLICES
-    return [Space("fairness", gen_fair([2] if q else [2, 3], sl, [100] if q else [100, 2000]), check_fair, variant="fast", describe="script sets x slice lengths: turn trace invariants + per-script results"),
+    return [Space("fairness", gen_fair([2, 3] if q else [2, 3, 4], sl, [100] if q else [100, 2000]), check_fair, variant="fast", describe="script sets x slice lengths: turn trace invariants + per-script results"),
             Space("sleep", lambda: gen_sleep(sl), check_sleep, variant="fast", describe="sleep durations x competitors x slices x ticks"),
             Space("scriptdone-terminate", lambda: gen_term(sl), check_term, variant="fast", describe="child length x delay before terminate x slices")]
